@@ -21,6 +21,7 @@ import (
 	_ "verif/harness/c11"
 	_ "verif/harness/c12"
 	_ "verif/harness/c13"
+	_ "verif/harness/c14"
 	_ "verif/harness/c16"
 	_ "verif/harness/c18"
 	_ "verif/harness/c19"
